@@ -22,6 +22,7 @@ func init() {
 					Type: "placer",
 					Text: "The place to increment.",
 				},
+				{Name: "&optional"},
 				{
 					Name: "delta-form",
 					Type: "object",
